@@ -23,7 +23,7 @@ from vlib import cfg, MV
 
 MANIFEST = dict(
     technique='TLA+ closed model TcpHs (handshake I-spec vs scripted peer, TLC exhaustive, P-monitors AcceptOK/ConnectOK/BadAck/ResetNeverAnswered) + paths of its state graph and seeded samples replayed on the real stack by a reactive raw-peer driver; every trace validated by TLC against the P-spec TraceHs (handshake) / TraceSock (no socket => exactly one reset)',
-    text='TLC explores every sequence of up to 4 peer segments (flags S, SA, A, R, RA, FA, none; sequence numbers irs, irs+1, irs+2, far; ack numbers iss-1, iss, iss+1, iss+2, far; arithmetic modulo 16 with the initial sequence numbers placed at 0, 1, 7, 8, 15) against the active opener, the listener and the listener in SYN-cookie mode and checks that a connection reaches Accept / Connect completes only after a SYN and a non-RST ACK of exactly iss+1, that any other acknowledgement delivered to a SYN-SENT / SYN-RCVD connection is answered by one RST carrying that number, and that a RST is never answered. Transitions of that graph and seeded scenarios (wrong ACK numbers iss+1 +- 1, +- 2^k, random; SYN option lists with MSS, window scale, timestamps, SACK-permitted, NOP/EOL padding, unknown kinds, truncated and mis-sized options, none; peer and stack ISS at 0, 2^31-1, 2^31, 2^32-1 (hook H4 for the active side, cookie linearity for the passive side); IPv4 and IPv6; normal, cookie and backlog-pressure mode; random segment orders) run on a real stack; after every peer segment the driver waits until every goroutine of the stack is parked, so "nothing is emitted" and "Accept would block" are statements about a quiescent state. TLC decides from the recorded injections, emitted frames (harness decoder) and Accept / Connect results whether the P-spec admits the trace; after the handshake a write shows that segment sizes and the amount in flight respect the MSS and window (scale) the peer put on its SYN. Segments for which no socket exists (64 flag combinations, with/without ACK, payload 0..1000, wrap-adjacent numbers, IPv4/IPv6) must be answered by exactly one RST with seq = their ack number (0 without ACK) and ack = seq + length, RSTs by nothing.',
+    text='TLC explores every sequence of up to 4 peer segments (flags S, SA, A, R, RA, FA, none; sequence numbers irs, irs+1, irs+2, far; ack numbers iss-1, iss, iss+1, iss+2, far; arithmetic modulo 16 with the initial sequence numbers placed at 0, 1, 7, 8, 15) against the active opener, the listener and the listener in SYN-cookie mode and checks that a connection reaches Accept / Connect completes only after a SYN and a non-RST ACK of exactly iss+1, that any other acknowledgement delivered to a SYN-SENT / SYN-RCVD connection is answered by one RST carrying that number, and that a RST is never answered. Transitions of that graph and seeded scenarios (wrong ACK numbers iss+1 +- 1, +- 2^k, random; SYN option lists with MSS, window scale, timestamps, SACK-permitted, NOP/EOL padding, unknown kinds, truncated and mis-sized options, none; peer and stack ISS at 0, 2^31-1, 2^31, 2^32-1 (hook H4 for the active side, cookie linearity for the passive side); IPv4, IPv6 and cross-family (dual-stack IPv6 socket with an IPv4 peer as listener and as active opener to the v4-mapped address; IPV6_V6ONLY listener with an IPv4 peer = no socket); normal, cookie and backlog-pressure mode; random segment orders) run on a real stack; after every peer segment the driver waits until every goroutine of the stack is parked, so "nothing is emitted" and "Accept would block" are statements about a quiescent state. TLC decides from the recorded injections, emitted frames (harness decoder) and Accept / Connect results whether the P-spec admits the trace; after the handshake a write shows that segment sizes and the amount in flight respect the MSS and window (scale) the peer put on its SYN. Segments for which no socket exists (64 flag combinations, with/without ACK, payload 0..1000, wrap-adjacent numbers, IPv4/IPv6) must be answered by exactly one RST with seq = their ack number (0 without ACK) and ack = seq + length, RSTs by nothing.',
     design='5 C03',
     note='Deviations from DESIGN C03: own closed model TcpHs instead of a TcpImpl section; quiescence detected from goroutine states instead of hook H6 / 50 ms of silence; the replayed graph is the placement-free quotient (VIEW ViewReplay) of TcpHs: quick replays a seeded sample of 700 paths of the <= 2-segment graph, thorough every transition of the <= 3-segment graph (52 k transitions); the exhaustive TLC run covers 4 segments. A mutant accepting cookies from a stale timestamp slot is not detectable (needs > 3 minutes of waiting and is not forbidden by the statement). AcceptOK does not constrain the sequence number of the final ACK (the statement does not): observed, out of scope - synRcvdState completes on an ACK of iss+1 with ANY sequence number (no RFC 793 acceptability test), also on a duplicate SYN-ACK. A bare ACK to a listener without SYN may be dropped or reset. Known finding F21 (cookie validation accepts ack numbers iss+1+d, |d| <= 3, through the additive MSS index), F22 (it validates only ack - seq: any common shift passes) are probed with the strict spec on every run and tolerated elsewhere only in exactly that shape; F23 (an established connection answered an acceptable RST with a RST; fixed in /repo) is probed too and tolerated nowhere. Seen, belongs to C04: cookie mode rounds a peer MSS below 536 up to 536; a passive open ignores the window of the handshake-completing ACK. The 2^-22 cookie guessing probability is not explored. Timestamp negotiation (RFC 7323 drop of option-less segments) is honoured by the scripts, not modelled.')
 
@@ -158,6 +158,15 @@ def syn_fields(b, cls='given'):
     return dict(optbytes=b, omss=mss, ows=ws, ots=ts, osack=sp, owell=well, oclass=cls)
 
 
+# ------------------------------------------------------------------ address families
+def family(rng):
+    """Wire family of the peer x family of the stack's socket: plain IPv4, plain IPv6 (v6only on or off), and the
+    cross-family case - a dual-stack IPv6 socket (v6only off, wildcard) talking to an IPv4 peer (listener: IPv4 SYNs
+    reach it; active open: connect to the v4-mapped address)."""
+    return dict(rng.choice([dict(v=4, sock=4), dict(v=4, sock=4), dict(v=6, sock=6), dict(v=6, sock=6, v6only=True),
+                            dict(v=4, sock=6), dict(v=4, sock=6)]))
+
+
 # ------------------------------------------------------------------ scenarios from the model graph
 OFFMAP = {0: 0, 1: 1, 2: 2, H: 0x80000000, -1: -1}
 RESP = dict(ListenSyn=['SA'], SentSyn=['SA'], SentSynAck=['A'], HsBadAck=['RA'], RcvdOtherSyn=['RA'], ListenAckValid=[], ListenDrop=[],
@@ -167,7 +176,7 @@ RESP = dict(ListenSyn=['SA'], SentSyn=['SA'], SentSynAck=['A'], HsBadAck=['RA'],
 def scenario_from_path(path, states, init, rng, kf):
     s0 = states[init]
     role = s0['role']
-    sc = dict(v=rng.choice([4, 4, 6]), role='active' if role == 'active' else 'passive', cookie=1 if role == 'cookie' else 0,
+    sc = dict(family(rng), role='active' if role == 'active' else 'passive', cookie=1 if role == 'cookie' else 0,
               port=80, backlog=4, peeriss=[hl(rng.choice(WRAP))], tag='graph-' + role, info=dict(kf), steps=[])
     if role == 'active':
         sc['iss'] = hl(rng.choice([0x7fffffff, 0x80000000, 0xffffffff, 0x00000000]))
@@ -252,7 +261,7 @@ def wrong_delta(rng):
 
 
 def base_sc(rng, role, cookie, kf, tag, npeers=1):
-    sc = dict(v=rng.choice([4, 4, 6]), role=role, cookie=cookie, port=rng.choice([80, 8080, 1, 65535]), backlog=4,
+    sc = dict(family(rng), role=role, cookie=cookie, port=rng.choice([80, 8080, 1, 65535]), backlog=4,
               peeriss=[hl(rng.choice(WRAP + [rng.randrange(1 << 32)])) for _ in range(npeers)], tag=tag, info=dict(kf), steps=[])
     if role == 'active':
         if rng.random() < 0.8:
@@ -392,6 +401,27 @@ def sc_pressure(rng, kf, i):
     return sc
 
 
+def sc_v6only(rng, kf, i):
+    """IPv4 peer, the only socket is an IPV6_V6ONLY listener on that port: no socket exists for the segment."""
+    sc = dict(v=4, sock=6, v6only=True, role='passive', cookie=rng.choice([0, 0, 1]), port=rng.choice([80, 8080]), backlog=4,
+              peeriss=[hl(rng.choice(WRAP + [rng.randrange(1 << 32)]))], tag='v6only', info=dict(kf, nosock=True), steps=[dict(op='listen')])
+    for _ in range(rng.randrange(2, 6)):
+        f = rng.choice(['S', 'S', 'A', 'SA', 'FA', 'PA', 'R', 'RA', 'F', '', 'SF', 'UA', 'SFA'])
+        kw = syn_fields([2, 4, 5, 180]) if 'S' in f else {}
+        sc['steps'].append(send(f, rng.choice([0, 1, 2, 0x80000000, rng.randrange(1 << 32)]), ackabs=rng.choice(WRAP + [rng.randrange(1 << 32)]),
+                                n=rng.choice([0, 0, 1, 10, 1000]), seed=rng.randrange(100), **kw))
+        sc['steps'].append(dict(op='accept'))
+    return sc
+
+
+def sc_dual_badack(kf, cookie, v6peer):
+    """Fixed script: dual-stack listener (IPv6 socket, v6only off), wrong final ACK then the right one."""
+    fam = dict(v=6, sock=6) if v6peer else dict(v=4, sock=6)
+    return dict(fam, role='passive', cookie=cookie, port=80, backlog=4, peeriss=[hl(0xfffffffe)], tag='dual-%d-%s' % (cookie, 'v6' if v6peer else 'v4'),
+                info=dict(kf), steps=[dict(op='listen'), send('S', 0, **syn_fields([2, 4, 5, 180])), dict(op='accept'), send('A', 1, ack=9), dict(op='accept'),
+                                      send('A', 1, ack=1), dict(op='accept'), dict(op='state'), dict(op='probe', pp=0, n=3000)])
+
+
 def probes_kf(rng, thorough):
     """Replay scripts of the known findings, validated with the STRICT P-spec on every run:
     F21 cookie validation tolerates the MSS index (ack = iss+1+d, |d| <= 3), F22 it only looks at ack - seq."""
@@ -432,13 +462,15 @@ def nosock_scenarios(ctx, n):
     fi = 0
     for i in range(n):
         ops = []
-        kind = i % 3
+        kind = i % 4
+        if kind == 3:      # the only socket on the port is an IPV6_V6ONLY listener: IPv4 segments have no socket
+            ops += [dict(op='tcp', s=0, v=6), dict(op='setopt', s=0, opt='v6only', val=1), dict(op='bind', s=0, addr='', port=81), dict(op='listen', s=0, backlog=2)]
         if kind == 1:      # a listener exists, but on another port
             ops += [dict(op='tcp', s=0, v=4), dict(op='bind', s=0, addr='', port=80), dict(op='listen', s=0, backlog=2)]
         elif kind == 2:    # a listener on another address
             ops += [dict(op='tcp', s=0, v=4), dict(op='bind', s=0, addr='10.0.0.2', port=81), dict(op='listen', s=0, backlog=2)]
         for j in range(8):
-            v = 6 if rng.random() < 0.3 else 4
+            v = 6 if (rng.random() < 0.3 and kind != 3) else 4
             flags = FLAGS64[fi % 64] if rng.random() < 0.7 else rng.choice(['S', 'A', 'SA', 'FA', 'R', 'RA', 'PA', 'F', ''])
             fi += 1
             if v == 4:
@@ -446,7 +478,7 @@ def nosock_scenarios(ctx, n):
                 src = '10.0.0.9'
             else:
                 dst, src = 'fd00::1', 'fd00::9'
-            dport = 81 if kind in (1, 2) else rng.choice([80, 81, 1, 65535, 40000])
+            dport = 81 if kind in (1, 2, 3) else rng.choice([80, 81, 1, 65535, 40000])
             seq = rng.choice(WRAP + [0xfffffff0, 0xfffffc18, rng.randrange(1 << 32)])
             ack = rng.choice(WRAP + [rng.randrange(1 << 32)])
             nn = rng.choice([0, 0, 1, 2, 10, 100, 1000])
@@ -654,9 +686,10 @@ def run(ctx):
                      replayed_transition_fraction=round(ncov / max(nedges, 1), 4), graph_max_segments=gms)
 
     # ---- seeded scenarios
-    nw, no, nr, npr = ctx.pick((100, 100, 100, 16), (2500, 2500, 2500, 300))
+    nw, no, nr, npr, nv = ctx.pick((100, 100, 100, 16, 30), (2500, 2500, 2500, 300, 600))
     sscs = [sc_wrong_acks(rng, kf, i) for i in range(nw)] + [sc_options(rng, kf, i) for i in range(no)] + \
-           [sc_random_walk(rng, kf, i) for i in range(nr)] + [sc_pressure(rng, kf, i) for i in range(npr)]
+           [sc_random_walk(rng, kf, i) for i in range(nr)] + [sc_pressure(rng, kf, i) for i in range(npr)] + \
+           [sc_v6only(rng, kf, i) for i in range(nv)] + [sc_dual_badack(kf, c, p) for c in (0, 1) for p in (False, True)]
     # bases of the binding self-tests
     st_pas = dict(v=4, role='passive', cookie=0, port=80, backlog=4, peeriss=[hl(0xffffffff)], tag='selftest-passive', info=dict(kf),
                   steps=[dict(op='listen'), send('S', 0), send('A', 1, ack=6), send('A', 1, ack=1), dict(op='accept')])
@@ -800,7 +833,8 @@ def run(ctx):
             continue
         ln2 = r2[0][1]
         ev = seg2[0][ln2] if ln2 < len(seg2[0]) else {}
-        ctx.violation('handshake behaviour rejected by the C03 P-spec at event %d (%s) of scenario %s: %s' % (ln2, ev.get('ev'), sc['tag'], short(ev)),
+        ctx.violation('handshake behaviour rejected by the C03 P-spec at event %d (%s) of scenario %s (peer IPv%d, socket IPv%d%s): %s' % (
+            ln2, ev.get('ev'), sc['tag'], sc['v'], sc.get('sock') or sc['v'], ' v6only' if sc.get('v6only') else '', short(ev)),
                       dict(kind='hsd', scenario=strip(sc), events=[short(e) for e in seg2[0][:ln2 + 1]]))
     a, rj = out['nosock']
     ctx.traces += a
